@@ -271,7 +271,7 @@ package openapi3
 //@   option safety-tags C20
 //@   tag C11
 //@ func (*Loader).ResolveRefsIn
-//@   requires loader != nil && doc != nil && pathOK(loader, location)
+//@   requires @C11 loader != nil && doc != nil && pathOK(loader, location)
 //@   loop * invariant loader.IsExternalRefsAllowed == old(loader.IsExternalRefsAllowed)
 //@   loop * invariant !old(loader.IsExternalRefsAllowed) ==> extReads == old(extReads)
 //@   modifies *
